@@ -62,6 +62,7 @@ var (
 	sgReplaceableKinds = []int64{0, 3, 10002}
 	sgAddressableKinds = []int64{30000, 30023}
 	sgEphemeralKinds   = []int64{20001, 29999}
+	sgWideKinds        = []int64{65537, 65543, 65536 + 30000, -1, 1<<32 + 1, 1<<32 + 7}
 	sgDValues          = []string{"", "x", "y:z", "X"} // "X": addresses that differ only in letter case are different addresses
 	SGTagValues        = []string{"", "v1", "v2"}
 	sgManyLetters      = "bcfghijklmnoqrstuvwxyz" // single-letter tag names without a meaning of their own here
@@ -130,6 +131,12 @@ func (g *StoreGen) extraTags(e *mocrelay.Event) {
 			e.Tags = append(e.Tags, mocrelay.Tag{name, SGTagValues[k]})
 		}
 	}
+	if g.R.IntN(12) == 0 {
+		// the very same tag twice (a client bug, or root and reply marker on one event), followed
+		// by another indexable tag
+		t := mocrelay.Tag{Pick(g.R, []string{"t", "e", "p"}), Pick(g.R, SGTagValues)}
+		e.Tags = append(e.Tags, t, mocrelay.Tag{t[0], t[1], "again"}, mocrelay.Tag{Pick(g.R, []string{"p", "t", "e"}), Pick(g.R, SGTagValues)})
+	}
 	n := g.R.IntN(3)
 	for i := 0; i < n; i++ {
 		// multi-letter names whose first letter is a filter key must not be mistaken for it
@@ -153,6 +160,11 @@ func (g *StoreGen) fresh() *mocrelay.Event {
 	switch {
 	case c < 35:
 		e.Kind = Pick(g.R, sgRegularKinds)
+		if g.R.IntN(25) == 0 {
+			// the stores take any int64 as a kind (the admission gate is not in front of them
+			// here): values that equal a usual kind modulo 2^16 or 2^32 are kinds of their own
+			e.Kind = Pick(g.R, sgWideKinds)
+		}
 	case c < 60:
 		e.Kind = Pick(g.R, sgReplaceableKinds)
 	case c < 90 || g.NoEphemeral:
@@ -265,6 +277,13 @@ func (g *StoreGen) deletion() *mocrelay.Event {
 	if g.R.IntN(3) == 0 {
 		g.extraTags(k)
 	}
+	if g.R.IntN(5) == 0 {
+		// NIP-09 k tags: a hint about the kinds of the named events, often incomplete or wrong
+		k.Tags = append(k.Tags, mocrelay.Tag{"k", Pick(g.R, []string{"1", "1", "30023", "0", "7", "x"})})
+		if g.R.IntN(2) == 0 {
+			k.Tags = append(k.Tags, mocrelay.Tag{"k", "5"})
+		}
+	}
 	if g.SelfRef && g.R.IntN(12) == 0 {
 		g.n++
 		id := HexOf("self-referencing deletion request " + strconv.Itoa(g.n))
@@ -355,6 +374,9 @@ func (g *FilterGen) Filter() *mocrelay.ReqFilter {
 	}
 	if r.IntN(3) == 0 {
 		f.Kinds = subset(r, []int64{1, 7, 0, 10002, 30000, 30023, 5, 20001}, int64(42))
+		if r.IntN(8) == 0 {
+			f.Kinds = append(f.Kinds, Pick(r, sgWideKinds))
+		}
 	}
 	if r.IntN(3) == 0 {
 		f.Tags = map[string][]string{}
